@@ -64,7 +64,8 @@ class C13(object):
                    'the reduction caller removes all blanks from the rewritten equation: expressions with keyword '
                    'operators or string literals (not valid in equation blocks anyway) are not fed to that sub-check']
     required_counters = ('list_tokens.judged', 'lookup.judged', 'replace_token.judged', 'eval.judged', 'block_rename.judged', 'reduction_rename.judged', 'reduction_rename.targeted', 'block_rename.second_pass_judged',
-                         'insitu.replace_token_from_lookup.post_evaluated')
+                         'insitu.replace_token_from_lookup.post_evaluated',
+                         'squeezed_lookalikes.judged')
 
     def n_cases(self, tier):
         return (20 if tier == 'quick' else 2000) + 1
@@ -156,6 +157,26 @@ class C13(object):
                 txt = G.render(rng, toks, style=rng.choice(['tight', 'spaced']))
                 self.reduction_rename(rng, rec, txt, {'tokens': toks}, [al])
                 rec.count('reduction_rename.targeted')
+            if i % 25 == 7:
+                # pairs of expressions that read the same once blanks are removed but are made of different names:
+                # keyword operators with blanks around them next to a long identifier spelled like the squeezed text
+                import tokenize as _tk
+                from sfc_models import utils as _u
+                pairs = [('a or b', 'aorb'), ('x if y else z', 'xifyelsez'), ('not done', 'notdone'), ('a and b', 'aandb'),
+                         ('p in q', 'pinq'), ('u is v', 'uisv'), ('a not in b', 'anotinb'), ('m  *  n', 'm*n')]
+                rng.shuffle(pairs)
+                for e1, e2 in pairs[:4]:
+                    for first_, second_ in ((e1, e2), (e2, e1)):
+                        for ex in (first_, second_):
+                            expn = [v for t_, v in monitors.token_stream(ex) if t_ == _tk.NAME]
+                            try:
+                                gotn = list(_u.list_tokens(ex))
+                            except Exception as e_:
+                                gotn = ['<raised %r>' % (e_,)]
+                            rec.count('squeezed_lookalikes.judged')
+                            if sorted(set(gotn)) != sorted(set(expn)):
+                                rec.violate('list_tokens', {'expression': ex, 'asked_after': first_ if ex == second_ else None,
+                                                            'got': gotn, 'expected': expn})
             if i % 4 == 1 and '=' not in text and '#' not in text and names and \
                     not (set(g['features']) & {'lag', 'keyword', 'string', 'attr'}):
                 self.reduction_rename(rng, rec, text, g, names)
